@@ -181,6 +181,12 @@ Proof.
     setoid_replace m1 with m' by exact Hs. ring.
 Qed.
 
+Lemma mix_step_total : forall (ms : list (Q * Q)) (cL : Q) (cs : list Q) (cR : Q),
+  length ms = length cs -> chain ms -> ms <> [] ->
+  total (mix_step ms cL cR cs) ==
+  total cs + fst (hd (0, 0) ms) * (cL - hd 0 cs) + snd (last ms (0, 0)) * (cR - last cs 0).
+Proof. intros; unfold mix_step; apply mix_aux_total; auto. Qed.
+
 (* closed ends: the inventory does not change *)
 Definition closed_ends (ms : list (Q * Q)) : Prop :=
   fst (hd (0, 0) ms) == 0 /\ snd (last ms (0, 0)) == 0.
